@@ -1,0 +1,44 @@
+//go:build verif
+
+// Contracts for package auditlog, checked by /verif/govc (comment-only file; no code).
+package auditlog
+
+// ---------------------------------------------------------------- writers hand over whole records, once (C19)
+// Ghost state (see /verif/specs/audit.spec): fmtCalls / lastFmtOut / lastFmtErr record the formatter call,
+// Logger.writes counts the lines handed to the underlying file by a log.Logger, fileWrites / lastFileData record
+// os.WriteFile calls.
+
+// serial writer: no formatter -> nothing; formatter error -> returned, nothing written; empty output -> nothing
+// written; otherwise exactly one line is written.
+// (That the line IS the formatted record cannot be stated: the argument of Println travels in an `any`, and the
+// contract language has no term for the string boxed in an interface.)
+//@ func (*serialWriter).Write props C19,C07
+//@   modifies sl.logger.writes, fmtCalls, lastFmtOut, lastFmtErr
+//@   ensures noFormatter: isnil(old(sl.formatter)) ==> isnil(result) && fmtCalls == old(fmtCalls) && sl.logger.writes == old(sl.logger.writes)
+//@   ensures formattedOnce: !isnil(old(sl.formatter)) ==> fmtCalls == old(fmtCalls) + 1
+//@   ensures formatError: !isnil(old(sl.formatter)) && !isnil(lastFmtErr) ==> result == lastFmtErr && sl.logger.writes == old(sl.logger.writes)
+//@   ensures emptyOutput: !isnil(old(sl.formatter)) && isnil(lastFmtErr) && lastFmtOut == "" ==> isnil(result) && sl.logger.writes == old(sl.logger.writes)
+//@   ensures oneRecord: !isnil(old(sl.formatter)) && isnil(lastFmtErr) && lastFmtOut != "" ==> isnil(result) && sl.logger.writes == old(sl.logger.writes) + 1
+
+// concurrent writer: the record goes to a file of its own (one os.WriteFile with exactly the formatted bytes), then
+// one entry is appended to the shared index under the writer's lock. No formatter -> nothing; formatter error ->
+// returned, nothing written; empty output -> nothing written; a directory that cannot be created -> nothing written.
+//@ func (concurrentWriter).Write props C19,C07
+//@   requires !isnil(al)
+//@   requires initialised: !isnil(cl.formatter) ==> cl.mux != nil && cl.log != nil
+//@   requires lockFree: !isnil(cl.formatter) ==> !cl.mux.held && cl.mux.readers == 0
+//@   modifies cl.log.writes, cl.mux.held, fmtCalls, lastFmtOut, lastFmtErr, fileWrites, lastFileName, lastFileData
+// every line of the shared index is written while the writer's lock is held (entries of concurrent transactions
+// do not interleave), and the lock is released on return
+//@   at call "cl.log.Print(" requires indexUnderLock: cl.mux.held
+//@   ensures lockReleased: !isnil(cl.formatter) ==> !cl.mux.held
+//@   ensures noFormatter: isnil(cl.formatter) ==> isnil(result) && fmtCalls == old(fmtCalls) && fileWrites == old(fileWrites) && cl.log.writes == old(cl.log.writes)
+//@   ensures formattedOnce: !isnil(cl.formatter) ==> fmtCalls == old(fmtCalls) + 1
+//@   ensures formatError: !isnil(cl.formatter) && !isnil(lastFmtErr) ==> result == lastFmtErr && fileWrites == old(fileWrites) && cl.log.writes == old(cl.log.writes)
+//@   ensures emptyOutput: !isnil(cl.formatter) && isnil(lastFmtErr) && lastFmtOut == "" ==> isnil(result) && fileWrites == old(fileWrites) && cl.log.writes == old(cl.log.writes)
+//@   ensures atMostOneFile: fileWrites == old(fileWrites) || fileWrites == old(fileWrites) + 1
+//@   ensures oneRecord: !isnil(cl.formatter) && isnil(lastFmtErr) && lastFmtOut != "" && isnil(result) ==> fileWrites == old(fileWrites) + 1 && lastFileData == lastFmtOut
+//@   ensures intact: fileWrites == old(fileWrites) + 1 ==> lastFileData == lastFmtOut
+// the index entry of a record is ONE line of the index file
+//@   ensures indexOneLine: !isnil(cl.formatter) && isnil(lastFmtErr) && lastFmtOut != "" && isnil(result) ==> cl.log.writes == old(cl.log.writes) + 1
+//@   ensures indexOnlyWithRecord: fileWrites == old(fileWrites) ==> cl.log.writes == old(cl.log.writes)
